@@ -154,7 +154,7 @@ func famC18(g *Gen, o *Out, n int, thorough bool) {
 			}
 			tops = append(tops, p)
 		}
-		if thorough && c%40 == 7 { // a directory wide enough to be HAMT-sharded by the builder
+		if thorough && c == 7 { // a directory wide enough to be HAMT-sharded by the builder
 			wide := filepath.Join(tops[0], "wide")
 			os.MkdirAll(wide, 0o755)
 			for i := 0; i < 4500; i++ {
@@ -179,6 +179,46 @@ func famC18(g *Gen, o *Out, n int, thorough bool) {
 			continue
 		}
 		file, _ := os.ReadFile(carPath)
+		// go-unixfsnode serialises HAMT shards in Go map order: the SET of blocks is a function of the
+		// tree, their order is not. When the in-process replay and the binary differ only in order,
+		// the binary's own section order is taken as the recorded engine sequence.
+		if fb, err := carv2.NewBlockReader(bytes.NewReader(file)); err == nil {
+			var inFile []Blk
+			for {
+				b, err := fb.Next()
+				if err != nil {
+					break
+				}
+				inFile = append(inFile, Blk{b.Cid(), b.RawData()})
+			}
+			count := func(bs []Blk) map[string]int {
+				m := map[string]int{}
+				for _, b := range bs {
+					m[b.C.KeyString()+string(b.D)] = 1 // the store de-duplicates
+				}
+				return m
+			}
+			a, b2 := count(blocks), count(inFile)
+			same := len(a) == len(b2)
+			for k := range a {
+				if b2[k] == 0 {
+					same = false
+				}
+			}
+			if same {
+				if len(inFile) != len(blocks) || func() bool {
+					for i := range inFile {
+						if !inFile[i].C.Equals(blocks[i].C) {
+							return true
+						}
+					}
+					return false
+				}() {
+					o.Count("engine-order-differs")
+				}
+				blocks = inFile
+			}
+		}
 		// (1) the archive: model session with the proxy root, the engine's puts, finalize, replace roots
 		wo := wOpts{codec: "mh", v1: ver == 1, mcs: 2048}
 		o.HashBlocks(blocks)
